@@ -80,6 +80,8 @@ def r1_r2_startup(ctx):
     # R2
     ctx.set_rule('C12.R2')
     atoms = [a for _, a in f.guard_atoms(s.b)]
+    # (the guard may sit in a `.filter(..)` on the module traversal instead of an `if` in the body)
+    atoms += iter_filter_facts(f, f.expr_operand(s.args[0], s.b, 'T'))
     g = any(a[0] == 'cmp' and a[1] == 'lt' and any(x[0] == 'call' and x[1] == EV + 'num_sim_start_stages' for x in walk(a[3])) and
             any(x[0] == 'call' and x[1].endswith('::next') for x in walk(a[2])) for a in atoms)
     ctx.check(g, 'stage-guard', 'a module is started in stage i iff i < its declared number of stages (exactly once per declared stage)', s.where(), [show_atom(a) for a in atoms if a[0] == 'cmp'])
